@@ -58,7 +58,10 @@ def main():
              "kind_free_text": "cooperative scheduler: exactly one registered writer thread runs; switches at open, "
                                "mutating-audit-event, mid-copy and os.stat/lstat yield points under the scratch root "
                                "(optionally also at every Python call into selected dvc_data modules, with a rendezvous "
-                               "of two writers at drawn call labels) follow a Hypothesis-generated schedule. C16's "
+                               "of two writers at drawn call labels) follow a Hypothesis-generated schedule; a waiting "
+                               "writer takes the token over when nobody passed a yield point for 2 s (the running writer "
+                               "is blocked inside the library, e.g. on a lock held by a parked writer; it rejoins at its "
+                               "next yield point), counted as token_takeovers in the evidence. C16's "
                                "process arm is perturbed, not controlled: forked writers only sleep drawn micro-delays "
                                "at the same yield points, optionally one of them stalls inside its first "
                                "state-database transactions"},
